@@ -39,11 +39,12 @@ def confirm_sk_tail(rep, r, p):
 
 def check(tier):
     rep = Report('C03', tier)
-    rep.functions = ['encoding::decompress', 'falcon::{PublicKey,SecretKey,Signature}::<N>::from_bytes', 'SecretKey::deserialize_field_element', 'falcon::verify::<N> + closures', 'Felt::{new,balanced_value}']
+    rep.functions = ['polynomial::hash_to_point (panic obligations; called by verify on salt || msg)', 'encoding::decompress', 'falcon::{PublicKey,SecretKey,Signature}::<N>::from_bytes', 'SecretKey::deserialize_field_element', 'falcon::verify::<N> + closures', 'Felt::{new,balanced_value}']
     rep.bounds = ['decompress: as C07 (fully symbolic small buffers, structured long runs, production-size tails in the thorough tier)',
                   'from_bytes: every byte symbolic at the accepted length and at lengths 0, 1, 2, accepted +-1, the other variant\'s; N in {512, 1024}',
                   'verify: toy N in {1,2,4}, all c, h, s2 (|s2_i| < 12160) and decode failure; real decompress composed for small (N, L); sums of 2N squares below 2^63 is checked for N <= 4 and by the arithmetic fact 1024*(6144^2 + 12159^2) < 2^63']
-    rep.outside = ['SecretKey::from_bytes: the Z_q tail is covered by contract (Polynomial::hadamard_div / hadamard_mul total on all canonical vectors of length <= 3, real MIR; the NTT itself by C11); the floating-point tail (from_b0 = FFT + ffLDL in f64) is outside M',
+    rep.bounds.append('hash_to_point: n <= 8, fully symbolic XOF stream with up to 6 rejected chunks (C14 quick scenarios), panic obligations only')
+    rep.outside = ['hash_to_point at n = 512 / 1024 as loop trip counts (buffer sizes that depend on n are exercised only at n <= 8 and by the native replay)', 'SecretKey::from_bytes: the Z_q tail is covered by contract (Polynomial::hadamard_div / hadamard_mul total on all canonical vectors of length <= 3, real MIR; the NTT itself by C11); the floating-point tail (from_b0 = FFT + ffLDL in f64) is outside M',
                    'stack / heap exhaustion; panics inside dependencies beyond what the summaries model (index out of range, unwrap, try_into length)']
     rep.trusted = ['mirsym library summaries', 'z3']
     rep.assumptions = ['overflow checks ON (the dev/test profile): every arithmetic assert terminator in the MIR is an obligation']
@@ -105,8 +106,66 @@ def check(tier):
     if narrow:
         heavy_signature_replay(rep, narrow, sig_accept)
     felt_mul_panic_lemma(rep)
+    hash_to_point_totality(rep, tier)
     # verify never panics on a decode failure or success natively either: a differential battery (cheap, replay only)
     return rep.finish()
+
+
+def hash_to_point_totality(rep, tier):
+    """verify's first step is hash_to_point(salt || msg, N) on attacker-chosen bytes: its panic obligations (index, arithmetic, library
+    panics) are part of this property. The real MIR is run over the fully symbolic XOF stream of C14's quick scenarios (n <= 8, every
+    accept/reject interleaving inside the bound); only the panic obligations count here (the values belong to C14). A violable
+    obligation is replayed through the real verify::<512/1024> on messages whose SHAKE-256 stream is extreme in the way the toy
+    counterexample is (many / long runs of rejected chunks); a panic that shows only at toy n is reported as inconclusive, because
+    verify never calls hash_to_point with those n."""
+    import hashlib
+    import numpy as np
+    from . import c14
+    jobs = c14.jobs_for('quick')
+    results = run_jobs(jobs, workers=NCPU, order_seed=0)
+    pans = []
+    for job, r in zip(jobs, results):
+        if r.get('error'):
+            rep.oblige(1, ok=False); rep.note_inconclusive('hash_to_point %s: %s' % (job[2], r['error'])); continue
+        rep.extra.setdefault('mir_hashes', {}).update(r.get('mir_hash', {}))
+        rep.states += r['paths']; rep.transitions += r['steps']; rep.queries += r['queries']; rep.solver_s += r['solver_s']
+        pan = r.get('panics', [])
+        rep.oblige(max(r['obligations'] - r['violable'], 0)); rep.oblige(len(pan), ok=False)
+        rep.parts.setdefault('scenarios', []).append({'scenario': 'C03/' + str(r.get('tag')), 'paths': r['paths'], 'panic_obligations_violable': len(pan), 'wall_s': round(r['wall_s'], 1)})
+        pans.extend(pan)
+    rep.parts['hash_to_point_totality'] = {'scenarios': len(jobs), 'panic_obligations_violable': len(pans)}
+    if not pans:
+        return
+    p = pans[0]
+    toy = None
+    msg = c14.find_message(p['stream'], p['n']) if p.get('stream') is not None else None
+    if msg is not None:
+        dev, rel = replay.both(['hash_to_point', p['n'], msg.hex()]); rep.replayed += 1
+        toy = (msg.hex(), dev[:80], rel[:80])
+    # production degrees, through verify: messages whose stream has the most rejected chunks early / the longest rejected runs
+    salt = bytes(40)
+    cand = []
+    for k in range(1500000):
+        m = b'verif-c03-%d' % k
+        d = hashlib.shake_256(salt + m).digest(1152)
+        c = int((np.frombuffer(d, dtype='>u2') >= 61445).sum())
+        if c >= 64:
+            cand.append((c, m))
+            if len(cand) >= 12: break
+    cand.sort(reverse=True)
+    for c, m in cand[:8]:
+        for N in (512, 1024):
+            sig = spec.sig_bytes(salt, [0] * N, N)
+            pk = spec.pk_bytes([1] + [0] * (N - 1), N)
+            req = ['verify', N, m.hex(), bytes(sig).hex(), bytes(pk).hex()]
+            dev, rel = replay.both(req); rep.replayed += 1
+            if str(dev).startswith('PANIC') or str(rel).startswith('PANIC'):
+                rep.violation('verify:hash_to_point:panic', 'verify::<%d> panics inside hash_to_point on message %r with an all-zero salt (%d of the first 576 stream chunks are rejected): %s; obligation found at n=%d: %s at %s'
+                              % (N, m, c, dev if str(dev).startswith('PANIC') else rel, p['n'], p['msg'], p.get('site')),
+                              {'replay_request': ['verify', N, m.hex(), bytes(sig).hex()[:100] + '...', bytes(pk).hex()[:60] + '...'], 'dev': str(dev)[:160], 'release': str(rel)[:160], 'toy': toy})
+                return
+    rep.note_inconclusive('a panic obligation of hash_to_point is violable at n=%d (%s at %s; native at that n: %s) but verify::<512/1024> did not panic on %d heavy-rejection messages'
+                          % (p['n'], p['msg'], p.get('site'), toy, len(cand[:8])))
 
 
 def heavy_signature_replay(rep, narrow, sig_accept):
